@@ -274,6 +274,13 @@ theorem draw_gates_shape :
     sizeTest ∈ kittyGates ∧ sizeTest ∈ sixelGates ∧ Gate.encoding ∈ kittyGates ∧ Gate.encoding ∈ sixelGates ∧
     Gate.noData ∈ sixelGates ∧ Gate.noData ∉ kittyGates ∧ Gate.zeroSize ∈ kittyGates := by decide
 
+/-- **The placement both `Draw` methods record** (regenerated): its column and row are the window's origin
+    (`col, row := win.Origin()`), its id and size the image's own `id`, `w`, `h` — not, say, the window's size — which
+    is what `ImageDraw.lower` / `KittyTerm.lowerW` build. -/
+theorem draw_placement_fields :
+    kittyPlacement = [(.col, "col"), (.h, "X.h"), (.id, "X.id"), (.row, "row"), (.w, "X.w")] ∧
+    sixelPlacement = kittyPlacement := by decide
+
 theorem sixel_placement_inside (sw sh : Int) (win : VaxisModel.Model.Window.Win) (hd : sixelDrawn sw sh win = true) :
     placementInside sw sh win ∧
     ∀ dx dy : Int, 0 ≤ dx → dx < sw → 0 ≤ dy → dy < sh → win.guard dx dy = true := by
